@@ -95,9 +95,12 @@ def dget : Disk → Key → Option Entry
   | [], _ => none
   | (k', e) :: r, k => if k' = k then some e else dget r k
 
+def derase : Disk → Key → Disk
+  | [], _ => []
+  | (k', e) :: r, k => if k' = k then derase r k else (k', e) :: derase r k
+
 /-- (over)write one file -/
-def dput (d : Disk) (k : Key) (e : Entry) : Disk :=
-  (k, e) :: d.filter (fun p => decide (p.1 ≠ k))
+def dput (d : Disk) (k : Key) (e : Entry) : Disk := (k, e) :: derase d k
 
 /-- `cache_from_source` (unhooked: stock name) / `cache_from_source_beartype` (hooked) -/
 def tagOf (tg : Conf → Tag) : Option Conf → Tag
@@ -219,9 +222,18 @@ def Shape.all : List Shape :=
 
 def Shape.key (s : Shape) : Bool × Nat × Nat × Bool := (s.pep526, s.placeFunc.code, s.placeType.code, s.confKw)
 
-def Shape.encode (s : Shape) : String :=
-  (if s.pep526 then "p1" else "p0") ++ "f" ++ toString s.placeFunc.code ++ "t" ++ toString s.placeType.code ++
-  (if s.confKw then "c1" else "c0")
+def bitChar (b : Bool) : Char := if b then '1' else '0'
+
+def Place.char : Place → Char
+  | .first => '1'
+  | .last => '2'
+  | .lastBeforeHostile => '3'
+
+def Shape.encodeChars (s : Shape) : List Char :=
+  ['p', bitChar s.pep526, 'f', s.placeFunc.char, 't', s.placeType.char, 'c', bitChar s.confKw]
+
+/-- `p<0|1>f<1|2|3>t<1|2|3>c<0|1>`: alphanumeric (as `cache_from_source` requires of `optimization`) and injective -/
+def Shape.encode (s : Shape) : String := String.ofList s.encodeChars
 
 /-- The recipe observed on /repo: the `opt-` tag of the cache file actually used for
     a hooked module under each shape; shapes no public configuration reaches (the
